@@ -127,6 +127,8 @@ type Frame struct {
 	headNew    map[int]int
 	backStates map[*ssa.BasicBlock][]*State
 	backSrc    map[*ssa.BasicBlock][]*ssa.BasicBlock
+	exitStates map[*ssa.BasicBlock][]*State
+	exitSrc    map[*ssa.BasicBlock][]*ssa.BasicBlock
 	logical    map[*types.Var]Val
 }
 
@@ -538,7 +540,7 @@ const maxDepth = 6
 
 func (ex *Exec) newFrame(fn *ssa.Function, args, bindings []Val, parent *Frame) *Frame {
 	fr := &Frame{ex: ex, fn: fn, regs: map[ssa.Value]Val{}, args: args, bindings: bindings, edge: map[[2]int]*State{},
-		allocByPos: map[token.Pos]*ssa.Alloc{}, captures: map[string]*capRec{}, headSnap: map[int]*State{}, parent: parent, assertsDone: map[*Clause]bool{}, headNew: map[int]int{}, backStates: map[*ssa.BasicBlock][]*State{}, backSrc: map[*ssa.BasicBlock][]*ssa.BasicBlock{}}
+		allocByPos: map[token.Pos]*ssa.Alloc{}, captures: map[string]*capRec{}, headSnap: map[int]*State{}, parent: parent, assertsDone: map[*Clause]bool{}, headNew: map[int]int{}, backStates: map[*ssa.BasicBlock][]*State{}, backSrc: map[*ssa.BasicBlock][]*ssa.BasicBlock{}, exitStates: map[*ssa.BasicBlock][]*State{}, exitSrc: map[*ssa.BasicBlock][]*ssa.BasicBlock{}}
 	if parent != nil {
 		fr.depth = parent.depth + 1
 		fr.label = parent.label
@@ -629,6 +631,16 @@ func (ex *Exec) run(fr *Frame, st *State) callResult {
 			ex.curBlks = nil
 		}
 	}
+	for _, h := range fr.li.heads {
+		if sts := fr.exitStates[h]; len(sts) > 0 {
+			if fr.parent == nil {
+				ex.curBlk = nil
+				ex.curBlks = fr.exitSrc[h]
+			}
+			ex.loopExit(fr, h, ex.mergeStates(sts))
+			ex.curBlks = nil
+		}
+	}
 	if len(fr.rets) == 0 {
 		return callResult{}
 	}
@@ -710,7 +722,8 @@ func (ex *Exec) putEdge(fr *Frame, from, to *ssa.BasicBlock, st *State) {
 	// loop exits
 	for h, body := range fr.li.body {
 		if body[from] && !body[to] {
-			ex.loopExit(fr, h, st)
+			fr.exitStates[h] = append(fr.exitStates[h], st)
+			fr.exitSrc[h] = append(fr.exitSrc[h], from)
 		}
 	}
 	if old, ok := fr.edge[key]; ok {
